@@ -235,9 +235,11 @@ def rule_dtor_pair(ctx, cd):
     for node, stack in j2front.walk(t.ast):
         if isinstance(node, N.Filter) and node.name == "destructor_name":
             nd += 1
+            loopvars = [g.node.target.name for g in stack if g.kind == "for" and isinstance(getattr(g.node, "target", None), N.Name)]
+            lv = loopvars[-1] if loopvars else "field"
             fs = [(e.strip("()"), p) for e, p in j2front.facts(stack) if "loop.first" not in e]
-            extra = [(e, p) for e, p in fs if not (not p and e.replace(".data_type", "") in ("field is PrimitiveType",)) and
-                     not (p and e.replace(".data_type", "") in ("field is not PrimitiveType",))]
+            extra = [(e, p) for e, p in fs if not (not p and e.replace(".data_type", "") in (f"{lv} is PrimitiveType",)) and
+                     not (p and e.replace(".data_type", "") in (f"{lv} is not PrimitiveType",))]
             ok = not extra
             ctx.ob(R, t.rel, "destroy_current(): the destructor runs for every alternative that is not a primitive scalar", ok,
                    "" if ok else f"destructor call additionally skipped under {extra}: an alternative of such a kind can own heap storage "
